@@ -7,7 +7,7 @@ cd /verif/harness || exit 1
 mkdir -p /verif/target /verif/replays /verif/evidence
 cargo build --release --offline -p vp-check -p vp-tantivy 2>&1 | tail -2
 cargo build --profile checked --offline -p vp-check 2>&1 | tail -1
-cargo build --release --offline --manifest-path /repo/Cargo.toml --target-dir /verif/target/cli -p predict -p evaluate -p manipulate_model -p train 2>&1 | tail -1
+cargo build --release --offline --manifest-path /repo/Cargo.toml --target-dir /verif/target/cli -p predict -p evaluate -p manipulate_model -p train -p convert_kytea_model 2>&1 | tail -1
 # C13 quick feature sets (parallel, own target dirs)
 for fs in "std,cache-type-score,fix-weight-length,charwise-pma,tag-prediction" "" "std,fix-weight-length,charwise-pma,tag-prediction" "std,cache-type-score,charwise-pma,tag-prediction" "std,cache-type-score,fix-weight-length,tag-prediction" "std,cache-type-score,fix-weight-length,charwise-pma"; do
   name="${fs//,/+}"; [ -z "$name" ] && name="alloc-only"
